@@ -504,8 +504,69 @@ def wrap(x, position):
     return x
 
 
+class _Claimed(object):
+    """What the objects below claim to be."""
+
+
+class _Plain(object):
+    def __init__(self):
+        self.v = 1
+
+
+class _Liar(_Plain):
+    """An object whose __class__ attribute names another class than its type (lazy proxies, mocks with a spec)."""
+    @property
+    def __class__(self):
+        return _Claimed
+
+
+def class_liars(ctx):
+    """ "Exactly that type" is type(obj): a handler registered for the type of an object is used for it - also when the
+    object's __class__ attribute claims something else (a property, a weakref.proxy) - and a handler registered for the
+    claimed class is not."""
+    import weakref
+    import jsonrpclib.config
+    import jsonrpclib.jsonclass as jc
+    referent = _Plain()
+    values = [("class-property", _Liar(), _Liar, _Claimed), ("weakref-proxy", weakref.proxy(referent), weakref.ProxyType,
+                                                             _Plain)]
+    for label, obj, real, claimed in values:
+        for position in ("top", "list", "dict", "deep"):
+            for which in ("handler-for-the-real-type", "handler-for-the-claimed-class"):
+                calls = []
+                marker = Marker(0, real.__name__)
+
+                def handler(o, serialize_method, ignore_attribute, ignore, config):
+                    calls.append(type(o).__name__)
+                    return marker
+                cfg = jsonrpclib.config.Config(serialize_handlers={(real if which.endswith("real-type") else claimed): handler})
+                case = {"scenario": "class-liar", "object": label, "position": position, "registered": which}
+                ctx.case(("class-liar", label, position, which), nontrivial=True)
+                ctx.count("judged:class-liars")
+                try:
+                    out = ("ok", jc.dump(wrap(obj, position), config=cfg))
+                except Exception as ex:  # noqa
+                    out = ("raise", ex)
+                if which.endswith("real-type"):
+                    got = out[1] if out[0] == "ok" else None
+                    at = {"top": lambda v: v, "list": lambda v: v[1], "dict": lambda v: v["k"],
+                          "deep": lambda v: v["a"][0][0]}[position]
+                    try:
+                        emitted = at(got)
+                    except Exception:  # noqa
+                        emitted = "<nothing there>"
+                    if calls != [real.__name__] or emitted is not marker:
+                        ctx.violate("handler-not-consulted:object-whose-__class__-differs-from-its-type", case,
+                                    {"handler_calls": calls, "outcome": out})
+                elif calls:
+                    ctx.violate("handler-applied-to-an-object-of-another-type:object-whose-__class__-differs-from-its-type",
+                                case, {"handler_calls": calls})
+
+
 def run(ctx):
     rng = ctx.rng
+    if ctx.shard == 0:
+        class_liars(ctx)
     for sc in range(ctx.pick(200, 2500)):
         if ctx.time_left() < 10:
             ctx.unsure("time budget exhausted after %d scenes" % sc)
